@@ -37,7 +37,7 @@ X0 = 4.0          # initial value of x
 P0 = {"kin": 128, "kk": 64}
 REL = 1e-6        # DESIGN.md section 4, rule 3: after an ODE solve
 ABS = 1e-9
-FRAGILE_BELOW = 1e-2   # |x| below this: 1e-6 * |x| < integrator atol; such rows are judged at FRAGILE_ABS and counted
+FRAGILE_BELOW = 1e-1   # |x| below this: 1e-6 * |x| < 10 x integrator atol (errors of a few 1e-8 accumulate while x decays to 0); such rows are judged at FRAGILE_ABS and counted
 FRAGILE_ABS = 1e-7
 SS_REL = 1e-4     # the steady-state point itself: accuracy of the steady state is C15's subject
 
@@ -91,6 +91,16 @@ class Run:
         self.sim = Simulator(self.model)
         self.bases = {0: 0.0}
         self.touched = False     # the history has read the computed views of a result
+        self.grids: dict = {}    # a caller keeps and reuses its time grids: one float64 array object per grid
+
+    def grid(self, kind: str, values: list):
+        """The caller's array for this grid: created once, handed over again whenever the same grid is asked for."""
+        import numpy as np
+
+        key = (kind, tuple(values))
+        if key not in self.grids:
+            self.grids[key] = np.array(values, dtype=float)
+        return self.grids[key]
 
     def t(self, tm: dict) -> float:
         return self.bases[tm["b"]] + tm["o"] * self.r.ts + tm.get("e", 0) * self.r.eps
@@ -113,17 +123,21 @@ class Run:
             if k == "sim":
                 s.simulate(self.t(op["te"]), steps=op["n"])
             elif k == "tc":
-                s.simulate_time_course([self.t(q) for q in op["pts"]])
+                s.simulate_time_course(self.grid("abs", [self.t(q) for q in op["pts"]]))
             elif k == "proto":
                 s.simulate_protocol(self.protocol(op["steps"]), time_points_per_step=op["n"])
             elif k == "ptc":
                 if op["rel"]:
-                    s.simulate_protocol_time_course(self.protocol(op["steps"]), [self.off(o) for o in op["rpts"]],
+                    s.simulate_protocol_time_course(self.protocol(op["steps"]),
+                                                    self.grid("rel", [self.off(o) for o in op["rpts"]]),
                                                     time_points_as_relative=True)
                 else:
-                    s.simulate_protocol_time_course(self.protocol(op["steps"]), [self.t(q) for q in op["pts"]])
+                    s.simulate_protocol_time_course(self.protocol(op["steps"]),
+                                                    self.grid("abs", [self.t(q) for q in op["pts"]]))
             elif k == "upd":
                 s.update_parameter(op["name"], op["v"] * self.r.ps)
+            elif k == "scale":
+                s.scale_parameter(op["name"], float(op["f"]))
             elif k == "ov":
                 s.update_variable("x", float(op["v"]))
             elif k == "ss":
@@ -377,8 +391,9 @@ def to_units(v: float, r: Rendering = SMALL):
     return int(u) if abs(q - u) <= 1e-9 * max(1.0, abs(q)) else None
 
 
-PAR_CHOICES = [(128, 64), (64, 128), (192, 32), (128, 16), (32, 64), (64, 4)]
-DEFAULT_WEIGHTS = {"sim": 5, "tc": 4, "proto": 2, "ptc": 3, "upd": 3, "ov": 3, "ss": 1, "clear": 1, "read": 2}
+PAR_CHOICES = [(128, 64), (64, 128), (192, 32), (128, 16), (32, 64), (64, 4), (0, 64), (0, 16)]
+DEFAULT_WEIGHTS = {"sim": 5, "tc": 4, "proto": 2, "ptc": 3, "upd": 3, "scale": 1, "ov": 3, "ss": 1, "clear": 1,
+                   "read": 2}
 
 
 def random_steps(rnd: random.Random, nmax: int = 4) -> list:
@@ -434,7 +449,11 @@ def random_op(rnd: random.Random, now: int, weights: dict | None = None) -> dict
         return {"k": "ptc", "steps": steps, "pts": pts if rel else [now + q for q in pts], "rel": rel}
     if k == "upd":
         name = rnd.choice(["k", "kin"])
-        return {"k": "upd", "name": name, "v": rnd.choice([4, 16, 32, 64, 128] if name == "k" else [32, 64, 128, 192])}
+        return {"k": "upd", "name": name,
+                "v": rnd.choice([4, 16, 32, 64, 128] if name == "k" else [0, 0, 32, 64, 128, 192])}
+    if k == "scale":
+        return rnd.choice([{"k": "scale", "name": "kin", "f": 0}, {"k": "scale", "name": "kin", "f": 2},
+                           {"k": "scale", "name": "k", "f": 2}])
     if k == "ov":
         return {"k": "ov", "v": rnd.randint(0, 12)}
     return {"k": k}
@@ -475,6 +494,7 @@ def record_trace(seed, length: int, weights: dict | None = None, ops: list | Non
     ev = []
     offgrid = None
     values = []
+    last_rel = None
     for step in range(length if ops is None else len(ops)):
         obs = run.observe()
         now = 0
@@ -484,6 +504,9 @@ def record_trace(seed, length: int, weights: dict | None = None, ops: list | Non
                 offgrid = "time reached is not on the grid"
                 break
         op = random_op(rnd, now, weights) if ops is None else {k: v for k, v in ops[step].items() if k != "tau"}
+        if ops is None and last_rel is not None and rnd.random() < 0.35:
+            op = dict(last_rel)      # the same relative protocol call once more: the caller reuses its grid array
+        last_rel = op if (op["k"] == "ptc" and op["rel"]) else last_rel
         if op["k"] == "sim" and op["n"] > 1 and op["te"] > now and ((op["te"] - now) % 1000 or ((op["te"] - now) // 1000) % op["n"]):
             if ops is None:  # pragma: no cover
                 raise AssertionError("driver produced an off-grid linspace")
